@@ -53,19 +53,19 @@ func init() {
 		NontrivialRuleText["C01"], 16000, 400000,
 		[]string{"rotations", "writes_spanning_blocks", "writes_ending_near_boundary", "oversized_writes", "overwrites", "deletes_present", "batches", "merges", "restarts_after_merge"})
 	meta("C02", "exploration", seqTech+"restart as a generated step with an independently drawn reader configuration; dump before Close == dump after Open",
-		NontrivialRuleText["C02"], 12000, 400000,
+		NontrivialRuleText["C02"], 12000, 300000,
 		[]string{"restarts", "restart_config_changed", "restart_file_end_near_boundary", "restart_file_end_on_boundary", "restarts_after_merge", "batches", "rotations"})
 	crashTech := "deterministic simulation with fault injection: the workload runs once on the journalling disk, then the directory is rebuilt as of every journal position (process crash) and, for a seeded subset, with unsynced file tails cut (power loss); the real Open runs on each image; "
 	meta("C03", "fault_enumeration", crashTech+"recovered dump must equal an allowed prefix state, and the recovered database must stay usable",
-		NontrivialRuleText["C03"], 1000, 40000,
+		NontrivialRuleText["C03"], 1000, 25000,
 		[]string{"fault_process_crash_images", "fault_power_loss_images", "fault_torn_write_images", "images_ok", "usability_rounds", "rotations"},
 		"power loss loses a not-yet-synced tail of a file from the end only (no reordering inside the tail, no sector garbage)")
 	meta("C04", "fault_enumeration", crashTech+"a batch is one mutation of the prefix oracle, so a partial batch equals no allowed state",
-		NontrivialRuleText["C04"], 500, 20000,
+		NontrivialRuleText["C04"], 500, 6000,
 		[]string{"fault_process_crash_images", "fault_power_loss_images", "images_ok", "batches", "sync_batches", "rotations"},
 		"power loss loses a not-yet-synced tail of a file from the end only")
 	meta("C07", "fault_enumeration", crashTech+"two levels deep for Merge and adoption: every position of the recovery Open is crashed again, then a clean Open",
-		NontrivialRuleText["C07"], 300, 12000,
+		NontrivialRuleText["C07"], 300, 5000,
 		[]string{"fault_process_crash_images", "fault_second_crash_images", "images_ok", "merges", "reopen_after_recovery"},
 		"process crash only (the property says 'the process dies')")
 	meta("C11", "exploration", "deterministic simulation (fault-free, one client): the exported datafile API is driven on the simulated disk through both I/O back-ends in lock-step; record start offsets and end distances are aimed using file sizes observed at the disk seam; round-trip, positions, sizes, logical==physical and byte-identity of the back-ends are checked",
@@ -73,53 +73,53 @@ func init() {
 		[]string{"df_records", "df_staged_flushes", "df_reopens", "df_end_within_8_of_boundary", "df_end_on_boundary", "df_multi_block_records", "df_start_offsets_hit", "df_identical_backend_files"},
 		"no schedule, clock or fault is involved: the simulator contributes the physical-size and written-bytes observation at the disk seam")
 	meta("C12", "fault_enumeration", "deterministic simulation with fault injection: a small database is built on the simulated disk and closed; stored bytes of its data and hint files are then altered on copies (all single-bit flips for small trees, seeded header-biased flips otherwise, overwrites, truncations, garbage blocks) and Open / Get / Fold / the sequential reader are judged",
-		NontrivialRuleText["C12"], 500, 20000,
+		NontrivialRuleText["C12"], 500, 6000,
 		[]string{"fault_damage_flip", "fault_damage_overwrite", "fault_damage_truncate", "fault_damage_garbage", "exhaustive_flip_runs", "damage_detected_at_open", "damage_harmless_or_detected", "damage_exposed_prefix_state"},
 		"a random overwrite that carries a valid CRC-32 by chance (2^-32) is ignored", "a zero-filled run that reaches the end of its block is indistinguishable from file pre-extension by design and is not injected", "damage to the lock file and the merge-finished marker is not injected (the property is about data and hint files)")
 	concTech := "deterministic simulation: 2..16 client tasks (real goroutines, exactly one runnable) interleaved by the seeded cooperative scheduler at every lock boundary and file call (random / sticky / PCT-style bounded-preemption policies); "
 	meta("C08", "exploration", concTech+"per-key histories stamped with global event numbers checked with porcupine against a register model; live dump at quiescence == dump after restart",
-		NontrivialRuleText["C08"], 25000, 1500000,
+		NontrivialRuleText["C08"], 25000, 500000,
 		[]string{"sched_switches", "lock_waits", "linearizability_checks", "live_vs_restart_checks", "conc_puts", "conc_dels", "conc_gets"},
 		"porcupine time-outs (20 s per key) are counted as inconclusive and never reported")
 	meta("C09", "exploration", concTech+"the binary is built with the Go race detector and the scheduler's hand-offs are invisible to it (runtime.RaceDisable around them, vsync emitting exactly sync's annotations), so reports are data races of the engine's own synchronisation on replayable schedules; plus panics, exact deadlock detection, undocumented errors",
-		NontrivialRuleText["C09"], 15000, 1500000,
+		NontrivialRuleText["C09"], 15000, 700000,
 		[]string{"sched_switches", "lock_waits", "conc_puts", "conc_lists", "conc_folds", "conc_iter_sessions", "conc_stats", "conc_syncs", "conc_batches", "conc_merges"},
 		"ThreadSanitizer keeps four accesses per 8-byte word: a race can be missed in one schedule, many schedules compensate", "races that need truly parallel torn multi-word accesses are reported as the same race; weak-memory effects beyond the Go memory model are out of reach")
 	Metas["C09"].Race = true
 	meta("C05", "exploration", seqTech+"layered overlay model for an open batch",
-		NontrivialRuleText["C05"], 25000, 1000000,
+		NontrivialRuleText["C05"], 25000, 500000,
 		[]string{"batches", "batch_repeat_key", "batch_put_then_delete", "batch_get_from_db", "rotations"})
 	meta("C06", "exploration", seqTech+"dumps before/after Merge and after the adopting and following restarts; journal-derived layout oracle for the adopted directory",
 		NontrivialRuleText["C06"], 10000, 300000,
 		[]string{"merges", "restarts_after_merge", "adoptions_checked", "adoptions_fewer_files", "merge_dir_gone", "merge_errors", "merge_error_ErrInjected", "merge_error_ErrNoEnoughSpaceForMerge", "conc_merges"},
 		"I/O errors are injected only inside the merge side directory (the statement defines Merge's behaviour under an error; nothing defines the main data path's)")
 	meta("C10", "exploration", seqTech+"frozen sorted-slice cursor model for iterator sessions",
-		NontrivialRuleText["C10"], 30000, 1500000,
+		NontrivialRuleText["C10"], 30000, 700000,
 		[]string{"iter_sessions_multi", "iter_seeks", "iter_rewinds", "iter_nexts", "iter_interleaved_writes", "lists", "folds"})
 	meta("C13", "exploration", seqTech+"unsynced-bytes invariants of the journalled disk model evaluated at every return",
-		NontrivialRuleText["C13"], 20000, 1000000,
+		NontrivialRuleText["C13"], 20000, 500000,
 		[]string{"always_checks", "threshold_checks", "sync_batch_checks", "all_synced_checks", "rotations_checked"},
 		"for mmap files 'flushed' means covered by an msync issued after the store; msync makes the whole mapping durable")
 	meta("C14", "exploration", seqTech+"differential: one generated program executed under 2..4 configurations on separate simulated disks with the same simulated clock; transcripts (and bytes when the layout is equal) must be identical",
-		NontrivialRuleText["C14"], 8000, 250000,
+		NontrivialRuleText["C14"], 8000, 120000,
 		[]string{"configs_compared", "byte_identical_layouts", "restarts", "batches", "iter_sessions", "rotations"},
 		"Stat sizes, DataFileNum and Merge's return value are excluded from the transcript when DataFileSize differs (they are layout)")
 	meta("C15", "exploration", seqTech+"hostile caller: one reused key buffer and one reused value buffer, poisoned after each return, canaries, kept Get results",
-		NontrivialRuleText["C15"], 25000, 1000000,
+		NontrivialRuleText["C15"], 25000, 350000,
 		[]string{"puts", "batch_repeat_key", "gets", "dumps"},
 		"pool-mediated aliasing is made reproducible by the deterministic LIFO replacement of sync.Pool")
 	meta("C17", "exploration", seqTech+"Stat recomputed at every step by scanning the files with the package's own reader",
-		NontrivialRuleText["C17"], 8000, 250000,
+		NontrivialRuleText["C17"], 8000, 100000,
 		[]string{"stat_checks", "batches", "merges", "restarts", "oversized_files_ok", "rotations"})
 	meta("C18", "exploration", seqTech+"hint entries decoded and compared with a scan of the merged files; hint-path Open vs scan-path Open",
-		NontrivialRuleText["C18"], 8000, 250000,
+		NontrivialRuleText["C18"], 8000, 100000,
 		[]string{"hint_checks", "hint_multi_file_output", "hint_vs_scan_opens"})
 	meta("C16", "exploration", concTech+"parties are in-process opener tasks plus one real child process driven in lock-step over a pipe (the scheduler decides whose turn it is); Open/Close outcomes are checked with porcupine against a single-holder lock model; a janitor task damages and repairs an older data file so that Opens fail after taking the lock; rejected Opens must leave the journal / directory hash unchanged",
-		NontrivialRuleText["C16"], 4000, 150000,
+		NontrivialRuleText["C16"], 4000, 120000,
 		[]string{"opens_ok", "opens_rejected", "opens_failed_other", "closes", "rejected_open_dir_unchanged", "rejected_open_dir_unchanged_peer", "holder_token_writes", "lock_history_checks", "final_opens", "fault_damage_older_file", "stale_closes"},
 		"flock(2) between two open file descriptions behaves the same within and across processes (the child-process party checks the cross-process half directly)", "the garbage collector is off during a run so that a leaked lock is not released by a finalizer")
 	meta("C19", "exploration", seqTech+"the data-type layer is driven with the simulated clock (TTL boundaries hit at expiry-1ns / expiry / expiry+1ns) and restarts; normalised replies vs an abstract-type reference model",
-		NontrivialRuleText["C19"], 60000, 2000000,
+		NontrivialRuleText["C19"], 60000, 1200000,
 		[]string{"dt_commands", "dt_wrongtype_replies", "restarts", "expired_reads", "dt_lpop", "dt_zadd", "dt_hdel", "dt_srem"},
 		"an emptied collection keeps its type (the statement does not say it vanishes)", "a non-string command on a string that expired but was not deleted may answer as on a live string or as on an absent key")
 	meta("C20", "exploration", seqTech+"Backup as a generated step; the copy is opened while the source stays open and compared with the reference map",
